@@ -208,7 +208,7 @@ def c12(spec, tier, seed, merged, drv, params):
     for fs, binary in binaries:
         for m in SUB_MONITORS + (["c19"] if "frontend" in fs else []):
             out = os.path.join(tmp, "%s-%s.json" % (ftag(fs), m))
-            cmd = [binary, m, "--seed", str(seed), "--shard", "0", "--cases", str(sub_cases), "--out", out]
+            cmd = [binary, m, "--seed", str(seed), "--shard", "0", "--cases", str(sub_cases), "--out", out, "--for_c12", "1"]
             if tier == "thorough":
                 cmd.append("--thorough")
             cmds.append((cmd, out, env))
